@@ -28,16 +28,16 @@ RULE = ('corpus tree x operation x (every environment call index k of the fault-
 ASSUMPTIONS = [
     'fault seam = monkeypatched os.open/os.stat/os.fstat/os.scandir/builtins.open (+ raw read proxy) that only '
     'intercepts paths below the tree root; the kernel is not involved',
-    'ENOENT and ENOTDIR are excluded: both are the OS saying that no such object exists (the statement is about objects that '
-    'exist but cannot be opened, inspected or read); faults during save are out of scope (DESIGN §C06)',
+    'ENOENT is excluded (the statement excludes it); for ENOTDIR - the other errno that speaks about existence - a '
+    'mismatch reporting a listed file as missing is accepted, success is not; faults during save are out of scope',
     'faults on objects inside hidden or IGNOREd subtrees are DONT_CARE (need not be read)',
 ]
 
 TOP = scen.TOP
-# ENOENT and ENOTDIR are not in the alphabet: they are the two answers by which the operating system says that NO SUCH
-# OBJECT EXISTS (a path component is missing / is not a directory), i.e. answers about existence and not failures to
-# access an existing object; an entry beneath a path that is a regular file now is 'missing' (C01/C07/C18 judge that)
-ERRNOS = [errno.EACCES, errno.EPERM, errno.EIO, errno.ENOMEM, errno.ELOOP, errno.EMFILE, errno.ESTALE, errno.EBUSY]
+# ENOTDIR stays in the alphabet, but with a weaker demand: reporting a LISTED file as missing is an acceptable mismatch
+# for it (ENOTDIR means the path does not exist), reporting success is not
+ERRNOS = [errno.EACCES, errno.EPERM, errno.EIO, errno.ENOMEM, errno.ELOOP, errno.ENOTDIR, errno.EMFILE, errno.ESTALE,
+          errno.EBUSY]
 
 
 def corpus():
@@ -191,15 +191,19 @@ def check_case(case, scratch, stats=None):
     if stats is not None:
         stats.compared += 1
         stats.outcomes[f'{op}/{kinds[0]}/{gem.brief(o) if not op.startswith("cli") else "exit:%r" % o.get("exit")}'] += 1
+    # ENOTDIR is the operating system's way of saying that a path does not exist because one of its components is not a
+    # directory: for a LISTED file "reported as missing" is then the proper mismatch (a path beneath something that is
+    # a regular file now - C01/C07/C18 require exactly that); only SUCCESS remains forbidden for this errno
+    enotdir = case['errno'] == errno.ENOTDIR
     if success(op, o):
         viol('fault_swallowed', f'operation reported success although {needed[:2]} could not be read')
     elif o['kind'] == 'exc' and o.get('class') == 'internal':
         viol('internal_error', f'{o["exc"]} at {o.get("where")}: {o.get("msg")}')
-    elif o['kind'] == 'exc' and o['exc'] == 'ManifestMismatch':
+    elif o['kind'] == 'exc' and o['exc'] == 'ManifestMismatch' and not enotdir:
         for d in o.get('diff', []):
             if d[0] == '__exists__' and d[2] is False and os.path.lexists(os.path.join(root, o['path'])):
                 viol('treated_as_absent', f'{o["path"]!r} exists but was reported as missing')
-    if op.startswith('cli') and not success(op, o):
+    if op.startswith('cli') and not success(op, o) and not enotdir:
         for (lv, _m), info in zip(o.get('log', []), o.get('log_info', [])):
             if lv == 'ERROR' and info and info['exc'] == 'ManifestMismatch' and info['path'] is not None:
                 if any(d[0] == '__exists__' and d[2] is False for d in (info['diff'] or [])) and \
